@@ -53,10 +53,16 @@ package tars
 //@   ensures [C01,C10] result == e.Message
 //@   safety [C05]
 //
+// rsp2Byte stays trusted for its callers (effect-free, result is the encoded packet); what is checked here are the
+// arguments at its call sites (argsonly): only a TUP-versioned response (version 3) is encoded in the request-packet
+// form, every other version - TARS and JSON - as a ResponsePacket (C10: the reply a client decodes carries the id).
 //@ func (*Protocol).rsp2Byte
 //@   trusted
+//@   argsonly
 //@   requires rsp != nil
 //@   pure
+//@   site req2Byte#0 assert [C10] rsp.IVersion == 3
+//@   site NewBuffer#0 assert [C10] rsp.IVersion != 3
 //
 //@ func (*Protocol).Invoke
 //@   requires s != nil && s.app != nil && s.app.allFilters != nil && s.dispatcher != nil && ctx != nil
